@@ -777,6 +777,8 @@ class VM:
             if op == "-":
                 return a - b
             if op == "*":
+                if isinstance(a, int) and isinstance(b, int) and a.bit_length() + b.bit_length() > 1 << 16:
+                    raise VMBudget("integer too large")
                 return a * b
             if op == "/":
                 if fam == "c":
